@@ -59,6 +59,15 @@ func newWorld(r *rand.Rand, o worldOpts) *World {
 	nrec := 1 + r.Intn(o.MaxRecipes)
 	nbas := 1 + r.Intn(4)
 	nunk := r.Intn(3)
+	maxEnts := 0
+	if r.Intn(15) == 0 {
+		// a big world now and then: counts beyond small-map sizes, buffer sizes and single digits
+		nrec, nbas, nunk = 12+r.Intn(14), 9+r.Intn(6), 5+r.Intn(8)
+		o.MaxDays, maxEnts = 25+r.Intn(20), 30
+		if o.MinDays > o.MaxDays {
+			o.MinDays = o.MaxDays
+		}
+	}
 	all := gen.Names(r, nrec+nbas+nunk, o.Names)
 	w := &World{Exact: o.Exact, Layout: o.Layout}
 	w.Recipes, w.Basics, w.Unknown = all[:nrec], all[nrec:nrec+nbas], all[nrec+nbas:]
@@ -81,7 +90,7 @@ func newWorld(r *rand.Rand, o worldOpts) *World {
 	foods := append(append(append([]string{}, w.Recipes...), w.Recipes...), w.Basics...)
 	foods = append(foods, w.Unknown...)
 	days := o.MinDays + r.Intn(o.MaxDays-o.MinDays+1)
-	w.Log = gen.RandomLog(r, gen.LogOpts{Days: days, Foods: foods, Exact: o.Exact, Sorted: o.Sorted, Notes: o.Notes, EmptyDays: !o.NoEmpty, NoDupFoods: o.NoDupFoods, Start: o.Start})
+	w.Log = gen.RandomLog(r, gen.LogOpts{Days: days, MaxEnts: maxEnts, Foods: foods, Exact: o.Exact, Sorted: o.Sorted, Notes: o.Notes, EmptyDays: !o.NoEmpty, NoDupFoods: o.NoDupFoods, Start: o.Start})
 	if o.Notes {
 		// recipes carry metadata lines too (README: "# barcode: ...")
 		for i := range w.Book {
